@@ -504,7 +504,12 @@ class Update(object):
         """
         nlri_raw_hex = b''
         for prefix in prefix_list:
-            if add_path and isinstance(prefix, dict):
+            if add_path:
+                if not isinstance(prefix, dict):
+                    # RFC 7911: once add-path is negotiated every prefix carries a path identifier
+                    raise excep.UpdateMessageError(
+                        sub_error=bgp_cons.ERR_MSG_UPDATE_INVALID_NETWORK_FIELD,
+                        data=prefix)
                 path_id = prefix.get('path_id')
                 prefix = prefix.get('prefix')
                 nlri_raw_hex += struct.pack('!I', path_id)
